@@ -84,15 +84,74 @@ theorem isPrefixOf_append_false {d : Char} : ∀ (s a b : List Char), s.isPrefix
       · exact .inl h
       · exact .inr (ih a b h (fun z hz => hd z (by simp [hz])))
 
-/-- a function name that does not begin with a keyword: the keyword literals do not match `name(` -/
-theorem kwName_accept {name : List Char} (hk : kwName name = false) (r : List Char) :
-    ['t', 'r', 'u', 'e'].isPrefixOf (name ++ '(' :: r) = false ∧
-    ['f', 'a', 'l', 's', 'e'].isPrefixOf (name ++ '(' :: r) = false ∧
-    ['n', 'u', 'l', 'l'].isPrefixOf (name ++ '(' :: r) = false := by
-  simp only [kwName, Bool.or_eq_false_iff] at hk
-  obtain ⟨⟨h1, h2⟩, h3⟩ := hk
-  refine ⟨isPrefixOf_append_false _ _ _ h1 ?_, isPrefixOf_append_false _ _ _ h2 ?_,
-    isPrefixOf_append_false _ _ _ h3 ?_⟩ <;> decide
+/-! ### the keyword patterns `true(?![a-z_0-9(])`, `false(?!…)`, `null(?!…)` -/
+
+/-- what may follow a keyword literal: the end of the input, or a character that neither continues a
+function name nor opens a call -/
+def kwEnd : List Char → Bool
+  | [] => true
+  | c :: _ => !(isLower c || c = '_' || isDigit c || c = '(')
+
+theorem reKeyword_cons (k a : Char) (kw rest : List Char) :
+    reKeyword (k :: kw) (a :: rest) = if k = a then (reKeyword kw rest).map (· + 1) else none := by
+  by_cases h : k = a
+  · subst h
+    simp only [reKeyword, List.isPrefixOf, beq_self_eq_true, Bool.true_and, List.length_cons, List.drop_succ_cons,
+      if_true]
+    split
+    · split
+      · split <;> rfl
+      · rfl
+    · rfl
+  · have hb : (k == a) = false := by simpa using h
+    simp only [reKeyword, List.isPrefixOf, hb, Bool.false_and, if_neg h]
+    rfl
+
+/-- the keyword pattern does not match when the first characters differ -/
+theorem reKeyword_head_ne {a c : Char} (s t : List Char) (h : c ≠ a) : reKeyword (a :: s) (c :: t) = none := by
+  rw [reKeyword_cons, if_neg (Ne.symm h)]
+
+/-- the keyword followed by something that ends it -/
+theorem reKeyword_append : ∀ (kw : List Char) {r : List Char}, kwEnd r = true →
+    reKeyword kw (kw ++ r) = some kw.length := by
+  intro kw
+  induction kw with
+  | nil =>
+    intro r h
+    cases r with
+    | nil => rfl
+    | cons c t =>
+      simp only [kwEnd, Bool.not_eq_true'] at h
+      simp [reKeyword, h]
+  | cons k kw ih =>
+    intro r h
+    rw [List.cons_append, reKeyword_cons, if_pos rfl, ih h]
+    rfl
+
+/-- `name(` with `name = [a-z_0-9]*` is no keyword literal, whatever the keyword (a keyword has no `(`):
+either the keyword is no prefix, or it is followed by a name character or by the `(` -/
+theorem reKeyword_name : ∀ (kw name : List Char) (r : List Char), (∀ x ∈ kw, x ≠ '(') →
+    (∀ x ∈ name, (isLower x || x = '_' || isDigit x) = true) → reKeyword kw (name ++ '(' :: r) = none := by
+  intro kw
+  induction kw with
+  | nil =>
+    intro name r _ hn
+    cases name with
+    | nil => rfl
+    | cons a name =>
+      have := hn a (by simp)
+      simp only [List.cons_append, reKeyword, List.isPrefixOf, if_true, List.length_nil, List.drop_zero]
+      rw [if_pos (by rw [Bool.or_eq_true]; exact .inl this)]
+  | cons k kw ih =>
+    intro name r hk hn
+    cases name with
+    | nil =>
+      exact reKeyword_head_ne _ _ (Ne.symm (hk k (by simp)))
+    | cons a name =>
+      rw [List.cons_append, reKeyword_cons]
+      split
+      · rw [ih name r (fun x hx => hk x (by simp [hx])) (fun x hx => hn x (by simp [hx]))]; rfl
+      · rfl
 
 /-! ### the number patterns on input that is not a number -/
 
@@ -151,72 +210,82 @@ theorem lexFilter_or (h : FSt D l pre [] ('|' :: '|' :: r) toks br) :
   obtain ⟨l1, h1, hs⟩ := lexFilter_default h (by decide) (by decide)
   rw [hs]; exact lexFilterDefault_or h1
 
-/-! ### `true`, `false`, `null` (accepted as prefixes) -/
+/-! ### `true`, `false`, `null` (not followed by a function-name character or `(`) -/
 
-theorem lexFilterDefault_true (h : FSt D l pre [] ('t' :: 'r' :: 'u' :: 'e' :: r) toks br) :
+theorem lexFilterDefault_true (h : FSt D l pre [] ('t' :: 'r' :: 'u' :: 'e' :: r) toks br) (hf : kwEnd r = true) :
     ∃ l', lexFilterDefault l = .ok (l', some .filter) ∧
       FSt D l' (pre ++ ['t', 'r', 'u', 'e']) [] r (⟨.true_, ['t', 'r', 'u', 'e'], pre.length⟩ :: toks) br := by
   have n1 := h.accept_none (s := ['&', '&']) (isPrefixOf_head_ne _ _ (by decide))
   have n2 := h.accept_none (s := ['|', '|']) (isPrefixOf_head_ne _ _ (by decide))
-  obtain ⟨l1, ha, h1⟩ := h.accept (s := ['t', 'r', 'u', 'e']) (r := r) rfl
+  have hre : reKeyword ['t', 'r', 'u', 'e'] ('t' :: 'r' :: 'u' :: 'e' :: r) = some ['t', 'r', 'u', 'e'].length := reKeyword_append ['t', 'r', 'u', 'e'] hf
+  obtain ⟨l1, ha, h1⟩ := h.acceptMatch hre (by simp)
+  have e1 : ('t' :: 'r' :: 'u' :: 'e' :: r).take ['t', 'r', 'u', 'e'].length = ['t', 'r', 'u', 'e'] := rfl
+  have e2 : ('t' :: 'r' :: 'u' :: 'e' :: r).drop ['t', 'r', 'u', 'e'].length = r := rfl
+  rw [e1, e2] at h1
   have h2 := h1.emit .true_
   simp only [List.nil_append] at h2
   exact ⟨_, by simp only [lexFilterDefault, kw_and, kw_or, kw_true, n1, n2, ha, goto], h2⟩
 
-theorem lexFilter_true (h : FSt D l pre [] ('t' :: 'r' :: 'u' :: 'e' :: r) toks br) :
+theorem lexFilter_true (h : FSt D l pre [] ('t' :: 'r' :: 'u' :: 'e' :: r) toks br) (hf : kwEnd r = true) :
     ∃ l', Impl.step .filter l = .ok (l', some .filter) ∧
       FSt D l' (pre ++ ['t', 'r', 'u', 'e']) [] r (⟨.true_, ['t', 'r', 'u', 'e'], pre.length⟩ :: toks) br := by
   obtain ⟨l1, h1, hs⟩ := lexFilter_default h (by decide) (by decide)
-  rw [hs]; exact lexFilterDefault_true h1
+  rw [hs]; exact lexFilterDefault_true h1 hf
 
-theorem lexFilterDefault_false (h : FSt D l pre [] ('f' :: 'a' :: 'l' :: 's' :: 'e' :: r) toks br) :
+theorem lexFilterDefault_false (h : FSt D l pre [] ('f' :: 'a' :: 'l' :: 's' :: 'e' :: r) toks br) (hf : kwEnd r = true) :
     ∃ l', lexFilterDefault l = .ok (l', some .filter) ∧
-      FSt D l' (pre ++ ['f', 'a', 'l', 's', 'e']) [] r
-        (⟨.false_, ['f', 'a', 'l', 's', 'e'], pre.length⟩ :: toks) br := by
+      FSt D l' (pre ++ ['f', 'a', 'l', 's', 'e']) [] r (⟨.false_, ['f', 'a', 'l', 's', 'e'], pre.length⟩ :: toks) br := by
   have n1 := h.accept_none (s := ['&', '&']) (isPrefixOf_head_ne _ _ (by decide))
   have n2 := h.accept_none (s := ['|', '|']) (isPrefixOf_head_ne _ _ (by decide))
-  have n3 := h.accept_none (s := ['t', 'r', 'u', 'e']) (isPrefixOf_head_ne _ _ (by decide))
-  obtain ⟨l1, ha, h1⟩ := h.accept (s := ['f', 'a', 'l', 's', 'e']) (r := r) rfl
+  have n3 := h.acceptMatch_none (re := reKeyword ['t', 'r', 'u', 'e']) (reKeyword_head_ne _ _ (by decide))
+  have hre : reKeyword ['f', 'a', 'l', 's', 'e'] ('f' :: 'a' :: 'l' :: 's' :: 'e' :: r) = some ['f', 'a', 'l', 's', 'e'].length := reKeyword_append ['f', 'a', 'l', 's', 'e'] hf
+  obtain ⟨l1, ha, h1⟩ := h.acceptMatch hre (by simp)
+  have e1 : ('f' :: 'a' :: 'l' :: 's' :: 'e' :: r).take ['f', 'a', 'l', 's', 'e'].length = ['f', 'a', 'l', 's', 'e'] := rfl
+  have e2 : ('f' :: 'a' :: 'l' :: 's' :: 'e' :: r).drop ['f', 'a', 'l', 's', 'e'].length = r := rfl
+  rw [e1, e2] at h1
   have h2 := h1.emit .false_
   simp only [List.nil_append] at h2
   exact ⟨_, by simp only [lexFilterDefault, kw_and, kw_or, kw_true, kw_false, n1, n2, n3, ha, goto], h2⟩
 
-theorem lexFilter_false (h : FSt D l pre [] ('f' :: 'a' :: 'l' :: 's' :: 'e' :: r) toks br) :
+theorem lexFilter_false (h : FSt D l pre [] ('f' :: 'a' :: 'l' :: 's' :: 'e' :: r) toks br) (hf : kwEnd r = true) :
     ∃ l', Impl.step .filter l = .ok (l', some .filter) ∧
-      FSt D l' (pre ++ ['f', 'a', 'l', 's', 'e']) [] r
-        (⟨.false_, ['f', 'a', 'l', 's', 'e'], pre.length⟩ :: toks) br := by
+      FSt D l' (pre ++ ['f', 'a', 'l', 's', 'e']) [] r (⟨.false_, ['f', 'a', 'l', 's', 'e'], pre.length⟩ :: toks) br := by
   obtain ⟨l1, h1, hs⟩ := lexFilter_default h (by decide) (by decide)
-  rw [hs]; exact lexFilterDefault_false h1
+  rw [hs]; exact lexFilterDefault_false h1 hf
 
-theorem lexFilterDefault_null (h : FSt D l pre [] ('n' :: 'u' :: 'l' :: 'l' :: r) toks br) :
+theorem lexFilterDefault_null (h : FSt D l pre [] ('n' :: 'u' :: 'l' :: 'l' :: r) toks br) (hf : kwEnd r = true) :
     ∃ l', lexFilterDefault l = .ok (l', some .filter) ∧
       FSt D l' (pre ++ ['n', 'u', 'l', 'l']) [] r (⟨.null, ['n', 'u', 'l', 'l'], pre.length⟩ :: toks) br := by
   have n1 := h.accept_none (s := ['&', '&']) (isPrefixOf_head_ne _ _ (by decide))
   have n2 := h.accept_none (s := ['|', '|']) (isPrefixOf_head_ne _ _ (by decide))
-  have n3 := h.accept_none (s := ['t', 'r', 'u', 'e']) (isPrefixOf_head_ne _ _ (by decide))
-  have n4 := h.accept_none (s := ['f', 'a', 'l', 's', 'e']) (isPrefixOf_head_ne _ _ (by decide))
-  obtain ⟨l1, ha, h1⟩ := h.accept (s := ['n', 'u', 'l', 'l']) (r := r) rfl
+  have n3 := h.acceptMatch_none (re := reKeyword ['t', 'r', 'u', 'e']) (reKeyword_head_ne _ _ (by decide))
+  have n4 := h.acceptMatch_none (re := reKeyword ['f', 'a', 'l', 's', 'e']) (reKeyword_head_ne _ _ (by decide))
+  have hre : reKeyword ['n', 'u', 'l', 'l'] ('n' :: 'u' :: 'l' :: 'l' :: r) = some ['n', 'u', 'l', 'l'].length := reKeyword_append ['n', 'u', 'l', 'l'] hf
+  obtain ⟨l1, ha, h1⟩ := h.acceptMatch hre (by simp)
+  have e1 : ('n' :: 'u' :: 'l' :: 'l' :: r).take ['n', 'u', 'l', 'l'].length = ['n', 'u', 'l', 'l'] := rfl
+  have e2 : ('n' :: 'u' :: 'l' :: 'l' :: r).drop ['n', 'u', 'l', 'l'].length = r := rfl
+  rw [e1, e2] at h1
   have h2 := h1.emit .null
   simp only [List.nil_append] at h2
   exact ⟨_, by simp only [lexFilterDefault, kw_and, kw_or, kw_true, kw_false, kw_null, n1, n2, n3, n4, ha, goto], h2⟩
 
-theorem lexFilter_null (h : FSt D l pre [] ('n' :: 'u' :: 'l' :: 'l' :: r) toks br) :
+theorem lexFilter_null (h : FSt D l pre [] ('n' :: 'u' :: 'l' :: 'l' :: r) toks br) (hf : kwEnd r = true) :
     ∃ l', Impl.step .filter l = .ok (l', some .filter) ∧
       FSt D l' (pre ++ ['n', 'u', 'l', 'l']) [] r (⟨.null, ['n', 'u', 'l', 'l'], pre.length⟩ :: toks) br := by
   obtain ⟨l1, h1, hs⟩ := lexFilter_default h (by decide) (by decide)
-  rw [hs]; exact lexFilterDefault_null h1
+  rw [hs]; exact lexFilterDefault_null h1 hf
 
 /-! ### numbers -/
 
 /-- none of the five literals matches input whose first character is none of `& | t f n` -/
 theorem accept_lits_none {c : Char} {t : List Char} (h : FSt D l pre [] (c :: t) toks br)
     (h1 : c ≠ '&') (h2 : c ≠ '|') (h3 : c ≠ 't') (h4 : c ≠ 'f') (h5 : c ≠ 'n') :
-    l.accept "&&".toList = none ∧ l.accept "||".toList = none ∧ l.accept "true".toList = none ∧
-    l.accept "false".toList = none ∧ l.accept "null".toList = none := by
+    l.accept "&&".toList = none ∧ l.accept "||".toList = none ∧ l.acceptMatch (reKeyword "true".toList) = none ∧
+    l.acceptMatch (reKeyword "false".toList) = none ∧ l.acceptMatch (reKeyword "null".toList) = none := by
   rw [kw_and, kw_or, kw_true, kw_false, kw_null]
   exact ⟨h.accept_none (isPrefixOf_head_ne _ _ h1), h.accept_none (isPrefixOf_head_ne _ _ h2),
-    h.accept_none (isPrefixOf_head_ne _ _ h3), h.accept_none (isPrefixOf_head_ne _ _ h4),
-    h.accept_none (isPrefixOf_head_ne _ _ h5)⟩
+    h.acceptMatch_none (reKeyword_head_ne _ _ h3), h.acceptMatch_none (reKeyword_head_ne _ _ h4),
+    h.acceptMatch_none (reKeyword_head_ne _ _ h5)⟩
 
 theorem num_first {c : Char} (hc : c = '-' ∨ isDigit c = true) :
     isWs c = false ∧ isFilterSpecial c = false ∧ c ≠ '&' ∧ c ≠ '|' ∧ c ≠ 't' ∧ c ≠ 'f' ∧ c ≠ 'n' := by
@@ -280,14 +349,21 @@ theorem reFunctionName_name {c : Char} {cs : List Char} (hc : isLower c = true)
   show some (1 + spanLen fnChar (cs ++ '(' :: r)) = _
   rw [this, Nat.add_comm]
 
-/-- `name(` with `name = [a-z][a-z_0-9]*` not beginning with `true`, `false` or `null`: one FUNCTION token;
+/-- `name(` with `name = [a-z][a-z_0-9]*` (it may begin with, or be, `true`, `false` or `null`): one FUNCTION token;
 the parenthesis is consumed and recorded on the bracket stack -/
 theorem lexFilter_function {c : Char} {cs : List Char} (h : FSt D l pre [] ((c :: cs) ++ '(' :: r) toks br)
-    (hc : isLower c = true) (hcs : ∀ x ∈ cs, fnChar x = true) (hk : kwName (c :: cs) = false) :
+    (hc : isLower c = true) (hcs : ∀ x ∈ cs, fnChar x = true) :
     ∃ l', Impl.step .filter l = .ok (l', some .filter) ∧
       FSt D l' (pre ++ (c :: cs) ++ ['(']) [] r (⟨.function, c :: cs, pre.length⟩ :: toks)
         (('(', pre.length + (c :: cs).length) :: br) := by
-  obtain ⟨k1, k2, k3⟩ := kwName_accept hk r
+  have hnm : ∀ x ∈ c :: cs, (isLower x || x = '_' || isDigit x) = true := by
+    intro x hx
+    rcases List.mem_cons.mp hx with rfl | hx
+    · simp [hc]
+    · exact hcs x hx
+  have k1 := reKeyword_name ['t', 'r', 'u', 'e'] (c :: cs) r (by decide) hnm
+  have k2 := reKeyword_name ['f', 'a', 'l', 's', 'e'] (c :: cs) r (by decide) hnm
+  have k3 := reKeyword_name ['n', 'u', 'l', 'l'] (c :: cs) r (by decide) hnm
   have c1 : c ≠ '&' := by rintro rfl; revert hc; decide
   have c2 : c ≠ '|' := by rintro rfl; revert hc; decide
   have c6 : c ≠ '-' := by rintro rfl; revert hc; decide
@@ -295,9 +371,9 @@ theorem lexFilter_function {c : Char} {cs : List Char} (h : FSt D l pre [] ((c :
   obtain ⟨l1, h1, hs⟩ := lexFilter_default (r := cs ++ '(' :: r) h (lower_not_ws hc) (lower_not_special hc)
   have n1 : l1.accept "&&".toList = none := by rw [kw_and]; exact h1.accept_none (isPrefixOf_head_ne _ _ c1)
   have n2 : l1.accept "||".toList = none := by rw [kw_or]; exact h1.accept_none (isPrefixOf_head_ne _ _ c2)
-  have n3 : l1.accept "true".toList = none := by rw [kw_true]; exact h1.accept_none k1
-  have n4 : l1.accept "false".toList = none := by rw [kw_false]; exact h1.accept_none k2
-  have n5 : l1.accept "null".toList = none := by rw [kw_null]; exact h1.accept_none k3
+  have n3 : l1.acceptMatch (reKeyword "true".toList) = none := by rw [kw_true]; exact h1.acceptMatch_none k1
+  have n4 : l1.acceptMatch (reKeyword "false".toList) = none := by rw [kw_false]; exact h1.acceptMatch_none k2
+  have n5 : l1.acceptMatch (reKeyword "null".toList) = none := by rw [kw_null]; exact h1.acceptMatch_none k3
   have n6 := h1.acceptMatch_none (re := reFloat) (reFloat_none _ c6 (lower_not_digit hc) c7)
   have n7 := h1.acceptMatch_none (re := reInt) (reInt_none _ c6 (lower_not_digit hc))
   have hre := reFunctionName_name hc hcs r
@@ -339,8 +415,7 @@ theorem takeWhile_append_drop (p : Char → Bool) :
 
 /-- the same from the grammar's `function-name "("` -/
 theorem lexFilter_functionName {inp : List Char} {name : Str} {r : List Char}
-    (h : FSt D l pre [] inp toks br) (hf : Spec.functionName inp = some (name, '(' :: r))
-    (hk : kwName name = false) :
+    (h : FSt D l pre [] inp toks br) (hf : Spec.functionName inp = some (name, '(' :: r)) :
     ∃ l', Impl.step .filter l = .ok (l', some .filter) ∧
       FSt D l' (pre ++ name ++ ['(']) [] r (⟨.function, name, pre.length⟩ :: toks)
         (('(', pre.length + name.length) :: br) := by
@@ -357,7 +432,7 @@ theorem lexFilter_functionName {inp : List Char} {name : Str} {r : List Char}
       have e : c :: t = (c :: t.takeWhile (fun c => Spec.isLCALPHA c || c = '_' || Spec.isDIGIT c)) ++ '(' :: r := by
         rw [← hd, List.cons_append, takeWhile_append_drop]
       rw [e] at h
-      exact lexFilter_function h hc hcs hk
+      exact lexFilter_function h hc hcs
     · simp at hf
 
 end JPV.Proofs.Cf
